@@ -4,13 +4,13 @@
 use std::collections::HashMap;
 use crate::rng::Rng;
 
-pub struct Pool { bytes: Vec<u8>, count: u16, memo: HashMap<String, u16> }
+pub struct Pool { pub bytes: Vec<u8>, pub count: u16, memo: HashMap<String, u16> }
 
 fn p2(v: &mut Vec<u8>, x: u16) { v.extend_from_slice(&x.to_be_bytes()); }
 fn p4(v: &mut Vec<u8>, x: u32) { v.extend_from_slice(&x.to_be_bytes()); }
 
 impl Pool {
-	fn new() -> Pool { Pool { bytes: Vec::new(), count: 1, memo: HashMap::new() } }
+	pub fn new() -> Pool { Pool { bytes: Vec::new(), count: 1, memo: HashMap::new() } }
 	fn add(&mut self, key: String, body: Vec<u8>) -> u16 {
 		if let Some(i) = self.memo.get(&key) { return *i; }
 		let i = self.count;
